@@ -35,6 +35,9 @@ def weave_file(scratch, entry):
         inserts.append((it.sig, text))
     for a in entry.get('crate_attrs', []):
         inserts.append((0, '%s %s\n' % (a, WEAVE_TAG)))
+    # several attribute groups on the same item: keep one line each
+    seen = set()
+    inserts = [x for x in inserts if not (x in seen or seen.add(x))]
     inserts.sort()
     out, last = [], 0
     for off, text in inserts:
@@ -44,8 +47,9 @@ def weave_file(scratch, entry):
     out.append(orig[last:])
     woven = ''.join(out)
     appended = ''
-    if entry.get('append'):
-        appended = '\n// ==== verif-append-begin ====\n' + read(os.path.join(CONTRACTS, entry['append']))
+    apps = entry.get('appends') or ([entry['append']] if entry.get('append') else [])
+    if apps:
+        appended = '\n// ==== verif-append-begin ====\n' + '\n'.join(read(os.path.join(CONTRACTS, a)) for a in apps)
         woven += appended
     # identity check: strip what was woven, compare with the original
     stripped = woven
@@ -57,7 +61,7 @@ def weave_file(scratch, entry):
     write(path, woven)
     return {'file': entry['file'], 'sha256_original': sha256(orig),
             'inserted_lines': sum(t.count('\n') for _, t in inserts),
-            'appended': entry.get('append')}
+            'appended': ', '.join(apps) if apps else None}
 
 
 _THREAD_CHECKING = re.compile(r'^Thread (\d+): Checking harness (\S+?)\.\.\.$')
@@ -132,8 +136,24 @@ class KaniSession:
         self.target_dir = os.path.join(CACHE, 'kani-target')
 
     def weave(self, unit):
+        """accumulate the unit's weave entries per file (several units may annotate the same file)"""
+        if not hasattr(self, 'pending'):
+            self.pending = {}
+        # validate the anchors now so that a lost anchor is attributed to this unit
         for entry in unit.get('weave', []):
-            self.weaves.append(weave_file(self.src, entry))
+            orig = read(os.path.join(REPO, entry['file']))
+            msk = rustscan.mask(orig)
+            for a in entry.get('attrs', []):
+                rustscan.find_item(orig, a['item'], msk)
+        for entry in unit.get('weave', []):
+            p = self.pending.setdefault(entry['file'], {'file': entry['file'], 'attrs': [], 'appends': [], 'crate_attrs': []})
+            p['attrs'] += entry.get('attrs', [])
+            p['crate_attrs'] += entry.get('crate_attrs', [])
+            if entry.get('append') and entry['append'] not in p['appends']:
+                p['appends'].append(entry['append'])
+
+    def flush(self):
+        self.weaves = [weave_file(self.src, e) for e in getattr(self, 'pending', {}).values()]
 
     def close(self):
         rm_scratch(self.scratch)
@@ -160,6 +180,7 @@ class KaniSession:
 
     def run(self, crate_dir, harnesses, per_harness_timeout, jobs=16, wall_timeout=None):
         """harnesses: list of fully-qualified harness names"""
+        self.flush()
         args = ['--exact', '-j', str(jobs), '--output-format', 'terse',
                 '--harness-timeout', '%ds' % per_harness_timeout]
         for h in harnesses:
